@@ -80,7 +80,6 @@ const SOURCES: &[&str] = &[
 
 pub const ISSUER_DID: &str = "did:iota:0x8036235b6b5939435a45d68bcea7890eef399209a669c8c263fac7f5089b2ec6";
 pub const HOLDER_DID: &str = "did:iota:0x71b709dff439f1ac9dd2b9c2e28db0807156b378e13bfa3605ce665aa0d0fdca";
-pub const OTHER_DID: &str = "did:example:ebfeb1f712ebc6f1c276e12ec21";
 
 #[derive(Clone, Copy, Debug)]
 pub enum SigMod {
